@@ -219,7 +219,9 @@ FTok == IF FieldIsLeafString THEN "string" ELSE shape[pos + 1]
 VRule == /\ pc = "V.rule"
          /\ CASE rc = "none" \/ FTok = "time" -> Jump("finish")       \* fields of type time.Time carry no rules
               [] rc = "unknown" -> Step("finish", pos, gather, strict, TRUE)
-              [] rc = "group" -> Step("finish", pos, gather, strict, TRUE)     \* single member: rule-writing clause
+              \* the harness gives a group two members (two fields of the same type and value): either reports iff both
+              \* are empty, botheq never - the rule class does not tell them apart, so both outcomes are allowed here
+              [] rc = "group" -> \E d \in {dirty, TRUE} : Step("finish", pos, gather, strict, d)
               [] rc = "required" -> IF EmptyColl(FTok) \/ FZero THEN Step("finish", pos, gather, strict, TRUE)
                                     ELSE Step("V.exist", pos, gather, FALSE, dirty)
               [] rc = "exist" -> Step("V.exist", pos, gather, TRUE, dirty)
